@@ -4,6 +4,7 @@ pub mod c04;
 pub mod c05;
 pub mod c07;
 pub mod c08;
+pub mod c12;
 pub mod c20;
 
 use crate::report::Report;
